@@ -213,7 +213,43 @@ def eval_feedback(fam, a, b):
     return 'feedback|polyhedron', viols
 
 
+def eval_stacked(fam, verts, fi):
+    """build A, take the face object A.convex_polygons[fi] and use that very object as the base of a pyramid B that lies
+    on the other side of it; B must come out with all normals outward (the shared face turned round)."""
+    K = X.Ph(verts)
+    a = lib.to_lib(K)
+    facets = X.facets_of(K)
+    c = X.interior_point(K)
+    viols = []
+    if fi >= len(a.convex_polygons):
+        return 'stacked', []
+    fobj = a.convex_polygons[fi]
+    # the exact facet this object is
+    fp = [lib._c(p) for p in fobj.points]
+    match = next((cyc for n, cyc in facets if lib.match_points(fp, cyc)), None)
+    if match is None:
+        return 'stacked', []
+    n = next(n for n, cyc in facets if cyc == match)
+    m = len(match)
+    fc = tuple(sum(F(v[i]) for v in match) / m for i in range(3))
+    apex = X.add(fc, X.scal(F(1, 2), n))      # outside A
+    e = X.Ph(tuple(match) + (apex,))
+    if not X.is_convex_position(e[1]):
+        return 'stacked', []
+    sides = [ConvexPolygon((lib.P(match[i]), lib.P(match[(i + 1) % m]), lib.P(apex))) for i in range(m)]
+    b = lib.call(lambda: ConvexPolyhedron(tuple([fobj] + sides)))
+    sc = lambda: core.enc(('stacked', verts, fi))
+    if isinstance(b, lib.Raised):
+        return 'stacked', [Viol('C09|stacked|construct|raises:%s' % b.cls, sc(), core.enc(e), repr(b), 'a valid face set using a face object of another body')]
+    for sym, det in polyhedron_problems(b, e):
+        viols.append(Viol('C09|stacked|%s' % sym, sc(), core.enc(e), det if isinstance(det, (str, int, float, list)) else lib.describe(det),
+                          'body built on a face object taken from another body'))
+    return 'stacked', viols
+
+
 def eval_scene(fam, s):
+    if s[0] == 'stacked':
+        return eval_stacked(fam, s[1], int(s[2]))
     if s[0] == 'polygon':
         return eval_polygon(fam, s[1])
     if s[0] == 'polyhedron':
@@ -308,6 +344,20 @@ def families(tier):
         for name in A.POLYGONS:
             n = len(A.POLYGONS[name])
             fams.append(Dups(name, pose, double=(n <= 4 if tier == 'quick' else n <= 6)))
+    st = []
+    for pose in A.poses(tier):
+        for nm in (('tetrahedron', 'box', 'pyramid', 'cut-cube', 'unit-cube') if tier == 'quick' else list(A.POLYHEDRA)):
+            K = pose(A.polyhedron(nm))
+            for fi in range(len(X.hull_facets(K[1]))):
+                st.append(('stacked', K[1], fi))
+
+    class _Stacked(Dups):
+        def __init__(self, sc):
+            self.name = 'stacked'
+            self.sc = sc
+            self.total = len(sc)
+            self._shards = [(i, min(i + 10, self.total)) for i in range(0, self.total, 10)]
+    fams.append(_Stacked(st))
     bodies = A.QUICK_BODIES
     pairs = [(a, b) for a in bodies for b in bodies]
     for pose in (A.poses(tier) if tier != 'quick' else [A.P0]):
